@@ -452,5 +452,224 @@ theorem addLoopK_eq (w : Nat) : ∀ (k : Nat) (x rest y yr : List Nat) (c : Bool
     | _ :: _, [], _, hy => simp at hy
 
 
+
+
+theorem U_all_zero {w : Nat} : ∀ (ds : List Nat), (∀ d ∈ ds, d = 0) → U w ds = 0 :=
+  DivL.U_of_all_zero
+
+theorem getD_append_add (l1 l2 : List Nat) (i : Nat) :
+    (l1 ++ l2).getD (l1.length + i) 0 = l2.getD i 0 := by
+  induction l1 with
+  | nil => simp
+  | cons d ds ih =>
+    rw [List.cons_append, List.length_cons, show ds.length + 1 + i = (ds.length + i) + 1 by omega,
+      List.getD_cons_succ]
+    exact ih
+
+theorem exists_snoc {w k : Nat} {l : List Nat} (h : WF w (k + 1) l) :
+    ∃ l' t, l = l' ++ [t] ∧ WF w k l' ∧ t < B w := by
+  have hne : l ≠ [] := by intro h0; rw [h0] at h; exact absurd h.1 (by simp)
+  refine ⟨l.dropLast, l.getLast hne, (List.dropLast_append_getLast hne).symm, ⟨?_, ?_⟩, ?_⟩
+  · rw [List.length_dropLast, h.1]; rfl
+  · intro d hd; exact h.2 d (List.mem_of_mem_dropLast hd)
+  · exact h.2 _ (List.getLast_mem hne)
+
+/-- value of the three leading window digits plus the rest -/
+theorem U_win (w : Nat) (wlo : List Nat) (x2 x1 x0 : Nat) :
+    U w (wlo ++ [x2, x1, x0]) = ((x0 * B w + x1) * B w + x2) * B w ^ wlo.length + U w wlo := by
+  rw [U_append]; simp only [U_cons, U_nil]; ring
+
+theorem U_vtop (w : Nat) (vlo : List Nat) (v2 v1 : Nat) :
+    U w (vlo ++ [v2, v1]) = (v1 * B w + v2) * B w ^ vlo.length + U w vlo := by
+  rw [U_append]; simp only [U_cons, U_nil]; ring
+
+/-- steps D3–D6 for one quotient digit, on an explicitly decomposed remainder and divisor -/
+theorem step_spec {w n j : Nat} (hw : 1 ≤ w) (hn2 : 2 ≤ n)
+    {lo wlo hi vlo vz : List Nat} {x0 x1 x2 v1 v2 : Nat}
+    (hlo : lo.length = j) (hwlo : WF w (n - 2) wlo) (hvlo : WF w (n - 2) vlo)
+    (hx0 : x0 < B w) (hx1 : x1 < B w) (hx2 : x2 < B w) (hv1 : v1 < B w) (hv2 : v2 < B w)
+    (hvz : ∀ d ∈ vz, d = 0) (hnorm : B w ≤ 2 * v1)
+    (hW : U w (wlo ++ [x2, x1, x0]) < U w (vlo ++ [v2, v1]) * B w) :
+    ∃ win', step w n ((vlo ++ [v2, v1]) ++ vz) v1 v2 (lo ++ (wlo ++ [x2, x1, x0]) ++ hi) j
+        = (lo ++ win' ++ hi, U w (wlo ++ [x2, x1, x0]) / U w (vlo ++ [v2, v1])) ∧
+      WF w (n + 1) win' ∧
+      U w win' = U w (wlo ++ [x2, x1, x0]) % U w (vlo ++ [v2, v1]) := by
+  have hB2 := B_ge_two hw
+  have hB := B_pos w
+  -- window and divisor as well-formed lists
+  have hwin : WF w (n + 1) (wlo ++ [x2, x1, x0]) := by
+    have h3 : WF w 3 [x2, x1, x0] := ⟨rfl, by simp; exact ⟨hx2, hx1, hx0⟩⟩
+    have := WF_append hwlo h3
+    rwa [show n - 2 + 3 = n + 1 by omega] at this
+  have hvm : WF w n (vlo ++ [v2, v1]) := by
+    have h2 : WF w 2 [v2, v1] := ⟨rfl, by simp; exact ⟨hv2, hv1⟩⟩
+    have := WF_append hvlo h2
+    rwa [show n - 2 + 2 = n by omega] at this
+  -- digits read by D3
+  have hidx : ∀ i, (lo ++ (wlo ++ [x2, x1, x0]) ++ hi).getD (j + (n - 2) + i) 0
+      = ([x2, x1, x0] ++ hi).getD i 0 := by
+    intro i
+    rw [List.append_assoc, List.append_assoc, ← hlo, Nat.add_assoc, getD_append_add,
+      ← hwlo.1, getD_append_add]
+  have h0 : remDigit (lo ++ (wlo ++ [x2, x1, x0]) ++ hi) (j + n) = x0 := by
+    unfold remDigit; rw [show j + n = j + (n - 2) + 2 by omega, hidx]; rfl
+  have h1 : remDigit (lo ++ (wlo ++ [x2, x1, x0]) ++ hi) (j + n - 1) = x1 := by
+    unfold remDigit; rw [show j + n - 1 = j + (n - 2) + 1 by omega, hidx]; rfl
+  have h2 : remDigit (lo ++ (wlo ++ [x2, x1, x0]) ++ hi) (j + n - 2) = x2 := by
+    unfold remDigit; rw [show j + n - 2 = j + (n - 2) + 0 by omega, hidx]; rfl
+  have hqe := qHat_eq (w := w) (n := n) (j := j) h0 h1 h2 hx0 hx1 hx2 hv1 hv2
+  -- the estimate
+  have hPpos : 0 < B w ^ (n - 2) := Nat.pow_pos hB
+  have hwr : U w wlo < B w ^ (n - 2) := by rw [pow_eq_M]; exact U_lt hwlo
+  have hvr : U w vlo < B w ^ (n - 2) := by rw [pow_eq_M]; exact U_lt hvlo
+  have eW := U_win w wlo x2 x1 x0
+  have eV := U_vtop w vlo v2 v1
+  rw [hwlo.1] at eW; rw [hvlo.1] at eV
+  have hspec := qHatN_spec (b := B w) (P := B w ^ (n - 2)) (x0 := x0) (x1 := x1) (x2 := x2)
+    (wr := U w wlo) (v1 := v1) (v2 := v2) (vr := U w vlo) hB2 hx0 hx1 hx2 hv1 hv2 hwr hvr hnorm
+    (by rw [← eW, ← eV]; exact hW)
+  rw [← eW, ← eV] at hspec
+  have hVlt : U w (vlo ++ [v2, v1]) < B w ^ n := by rw [pow_eq_M]; exact U_lt hvm
+  have hWlt : U w (wlo ++ [x2, x1, x0]) < B w ^ (n + 1) := by rw [pow_eq_M]; exact U_lt hwin
+  have hVpos : 0 < U w (vlo ++ [v2, v1]) := by
+    rcases Nat.eq_zero_or_pos (U w (vlo ++ [v2, v1])) with h | h
+    · rw [h] at hW; omega
+    · exact h
+  generalize hWd : U w (wlo ++ [x2, x1, x0]) = W at *
+  generalize hVd : U w (vlo ++ [v2, v1]) = V at *
+  obtain ⟨hq1, hq2, hq3⟩ := hspec
+  -- the product
+  have hvfull : WF w (n + vz.length) ((vlo ++ [v2, v1]) ++ vz) :=
+    WF_append hvm ⟨rfl, fun d hd => by rw [hvz d hd]; exact hB⟩
+  have hUv : U w ((vlo ++ [v2, v1]) ++ vz) = V := by
+    rw [U_append, U_all_zero vz hvz, hVd]; simp
+  unfold step
+  rw [hqe]
+  dsimp only
+  generalize qHatN (B w) x0 x1 x2 v1 v2 = qh at *
+  obtain ⟨hm1, hm2⟩ := mulLoop_spec hq3 _ _ 0 hvfull hB
+  rw [hUv] at hm2
+  have hmul : mulNew w ((vlo ++ [v2, v1]) ++ vz) qh = mulLoop w qh ((vlo ++ [v2, v1]) ++ vz) 0 := rfl
+  rw [hmul]
+  generalize mulLoop w qh ((vlo ++ [v2, v1]) ++ vz) 0 = mul at *
+  have hmt : WF w (n + 1) (mul.take (n + 1)) := WF_take hm1 _ (by omega)
+  have hmv : U w (mul.take (n + 1)) = V * qh := by
+    have e := U_take_drop w mul (n + 1)
+    rw [hmt.1] at e
+    have hlt : V * qh < B w ^ (n + 1) := by
+      calc V * qh < B w ^ n * B w := by
+            rcases Nat.eq_zero_or_pos qh with h | h
+            · rw [h, Nat.mul_zero]; exact Nat.mul_pos (Nat.pow_pos hB) hB
+            · calc V * qh < B w ^ n * qh := Nat.mul_lt_mul_of_pos_right hVlt h
+                _ ≤ B w ^ n * B w := Nat.mul_le_mul_left _ (by omega)
+        _ = B w ^ (n + 1) := (Nat.pow_succ ..).symm
+    rcases Nat.eq_zero_or_pos (U w (mul.drop (n + 1))) with h | h
+    · rw [h] at e; omega
+    · have : B w ^ (n + 1) * 1 ≤ B w ^ (n + 1) * U w (mul.drop (n + 1)) := Nat.mul_le_mul_left _ h
+      omega
+  -- D4: multiply and subtract
+  have htake : (lo ++ (wlo ++ [x2, x1, x0]) ++ hi).take j = lo := by
+    rw [List.append_assoc, ← hlo]; exact List.take_left' rfl
+  have hdrop : (lo ++ (wlo ++ [x2, x1, x0]) ++ hi).drop j = (wlo ++ [x2, x1, x0]) ++ hi := by
+    rw [List.append_assoc, ← hlo]; exact List.drop_left' rfl
+  have hsub : remSub w (lo ++ (wlo ++ [x2, x1, x0]) ++ hi) mul j n =
+      (lo ++ ((UI.subLoop w (wlo ++ [x2, x1, x0]) (mul.take (n + 1)) false).1 ++ hi),
+        (UI.subLoop w (wlo ++ [x2, x1, x0]) (mul.take (n + 1)) false).2) := by
+    unfold remSub
+    rw [htake, hdrop]
+    conv_lhs => rw [← List.take_append_drop (n + 1) mul]
+    rw [subLoopK_eq w (n + 1) _ hi _ _ false hwin.1 hmt.1]
+  rw [hsub]
+  obtain ⟨hs1, hs2⟩ := UI.subLoop_spec (n + 1) _ _ false hwin hmt
+  rw [hmv, hWd, ← pow_eq_M] at hs2
+  simp only [Bool.toNat_false, Nat.add_zero] at hs2
+  generalize hres : (UI.subLoop w (wlo ++ [x2, x1, x0]) (mul.take (n + 1)) false).1 = res at *
+  generalize hbor : (UI.subLoop w (wlo ++ [x2, x1, x0]) (mul.take (n + 1)) false).2 = bor at *
+  have hreslt : U w res < B w ^ (n + 1) := by rw [pow_eq_M]; exact U_lt hs1
+  have hdm := Nat.div_add_mod W V
+  have hml := Nat.mod_lt W hVpos
+  simp only
+  rcases Nat.lt_or_ge (W / V) qh with hgt | hle
+  · -- q̂ = q + 1: borrow, add back
+    have hqh : qh = W / V + 1 := by omega
+    have hVq : V * qh = V * (W / V) + V := by rw [hqh]; ring
+    have hb1 : bor = true := by
+      cases bor
+      · simp only [Bool.toNat_false, Nat.mul_zero, Nat.add_zero] at hs2; omega
+      · rfl
+    subst hb1
+    simp only [Bool.toNat_true, Nat.mul_one, if_true] at hs2 ⊢
+    obtain ⟨rlo, top, hr, hrlo, htop⟩ := exists_snoc hs1
+    have hUres : U w res = U w rlo + B w ^ n * top := by
+      rw [hr, U_append, hrlo.1]; simp
+    -- add back
+    have hadd : remAdd w (lo ++ (res ++ hi)) ((vlo ++ [v2, v1]) ++ vz) j n =
+        lo ++ ((UI.addLoop w rlo (vlo ++ [v2, v1]) false).1 ++
+          bump w (UI.addLoop w rlo (vlo ++ [v2, v1]) false).2 (top :: hi)) := by
+      unfold remAdd
+      rw [← hlo, List.take_left' rfl, List.drop_left' rfl, hr]
+      rw [List.append_assoc, List.singleton_append]
+      rw [addLoopK_eq w n rlo (top :: hi) (vlo ++ [v2, v1]) vz false hrlo.1 hvm.1]
+    rw [hadd]
+    obtain ⟨ha1, ha2⟩ := UI.addLoop_spec n rlo _ false hrlo hvm
+    rw [hVd, ← pow_eq_M] at ha2
+    simp only [Bool.toNat_false, Nat.add_zero] at ha2
+    generalize (UI.addLoop w rlo (vlo ++ [v2, v1]) false).1 = sum at *
+    generalize (UI.addLoop w rlo (vlo ++ [v2, v1]) false).2 = car at *
+    have hsumlt : U w sum < B w ^ n := by rw [pow_eq_M]; exact U_lt ha1
+    have hpow : B w ^ (n + 1) = B w ^ n * B w := Nat.pow_succ ..
+    have hVlt' := hVlt
+    -- top = B - 1 and the carry is set
+    have key : car = true ∧ top + 1 = B w := by
+      have e1 : B w ^ n * top + B w ^ n * car.toNat + U w sum + V * (W / V) = W + B w ^ n * B w := by
+        have : B w ^ n * top + (U w sum + B w ^ n * car.toNat) + V * (W / V) + V
+            = W + B w ^ n * B w + V := by
+          rw [ha2]; omega
+        omega
+      have e2 : W + B w ^ n * B w = W % V + V * (W / V) + B w ^ n * B w := by omega
+      have e3 : B w ^ n * (top + car.toNat) + U w sum = W % V + B w ^ n * B w := by
+        rw [Nat.mul_add]; omega
+      have hc1 : car.toNat ≤ 1 := Bool.toNat_le car
+      have e4 : top + car.toNat = B w := by
+        rcases Nat.lt_trichotomy (top + car.toNat) (B w) with h | h | h
+        · have : B w ^ n * (top + car.toNat + 1) ≤ B w ^ n * B w := Nat.mul_le_mul_left _ h
+          rw [Nat.mul_add, Nat.mul_one] at this
+          omega
+        · exact h
+        · omega
+      cases car
+      · simp at e4; omega
+      · simp at e4; exact ⟨rfl, e4⟩
+    obtain ⟨hc, ht⟩ := key
+    subst hc
+    have hbump : bump w true (top :: hi) = 0 :: hi := by
+      unfold bump; simp only [if_true]; rw [ht, Nat.mod_self]
+    rw [hbump]
+    refine ⟨sum ++ [0], ?_, ?_, ?_⟩
+    · have hq' : qh - 1 = W / V := by rw [hqh]; exact Nat.add_sub_cancel _ _
+      rw [hq']
+      simp only [List.append_assoc, List.singleton_append]
+    · exact WF_append ha1 ⟨rfl, by simp [hB]⟩
+    · rw [U_append]; simp only [U_cons, U_nil, Nat.mul_zero, Nat.add_zero]
+      simp only [Bool.toNat_true, Nat.mul_one] at ha2
+      have : top = B w - 1 := by omega
+      have e : B w ^ n * (B w - 1) + B w ^ n = B w ^ n * B w := by
+        rw [← Nat.mul_succ, Nat.succ_eq_add_one, Nat.sub_add_cancel hB]
+      rw [this] at hUres
+      omega
+  · -- q̂ = q: no borrow
+    have hqh : qh = W / V := by omega
+    have hb0 : bor = false := by
+      cases bor
+      · rfl
+      · simp only [Bool.toNat_true, Nat.mul_one] at hs2
+        rw [hqh] at hs2; omega
+    subst hb0
+    simp only [Bool.toNat_false, Nat.mul_zero, Nat.add_zero, Bool.false_eq_true, if_false] at hs2 ⊢
+    refine ⟨res, ?_, hs1, ?_⟩
+    · rw [hqh, List.append_assoc]
+    · rw [hqh] at hs2; omega
+
+
 end KDL
 end Bnum
